@@ -12,7 +12,7 @@ def run(tier, seed, t0):
     okh, outh = C.build_harness()
     if not okh:
         raise RuntimeError("harness build failed:\n" + outh[-3000:])
-    n = 25 if tier == "quick" else 1500
+    n = 25 if tier == "quick" else 250
     rows = L.run_stream("framed", seed, n)
     distinct = set()
     for sess, obs, ref in rows:
